@@ -72,6 +72,10 @@ impl Engine for SignSim {
             for s in slots.iter_mut() {
                 if s.custody == Custody::Remote && s.spec.alg.is_rsa() && r2.chance(1, 6) {
                     s.spec.material = simcore::sha256::hex(&[crate::keys::RSA_POOL_REMOTE_ONLY]);
+                } else if s.custody == Custody::Remote && s.spec.alg.is_rsa() && r2.chance(1, 3) {
+                    // ... or a legacy key smaller than anything a back end would load
+                    let (first, n) = crate::keys::RSA_POOL_SMALL_REMOTE_ONLY;
+                    s.spec.material = simcore::sha256::hex(&[first + r2.below(n as u64) as u8]);
                 }
             }
         }
